@@ -2,3 +2,4 @@ import SycVerif.Props.C17
 import SycVerif.Props.C19
 import SycVerif.Props.C19Easing
 import SycVerif.Driver.Main
+import SycVerif.Props.C18
